@@ -202,6 +202,7 @@ void exec_parser(const ExecOp& op, Outcome& out)
     if (op.heap_instance && HeapBox<P>::ptr()) p = HeapBox<P>::ptr();
     simrt::begin_op(op.op_index);
     simrt::set_current_parser(p);
+    simrt::set_expected_owner(p == &Holder::rodata() ? 0 : 1);
     out.ran = true;
     bool heap = op.hash_image;
     if (heap) out.image_before = fnv(p, sizeof(P));
